@@ -195,9 +195,9 @@ func runFSO(cfg config) {
 		}
 		return
 	}
-	nh, hl := 150, 30
+	nh, hl := 500, 40
 	if cfg.tier == "thorough" {
-		nh, hl = 2500, 50
+		nh, hl = 6000, 60
 	}
 	o.rule = fmt.Sprintf("mode %s: %d random histories of %d namespace calls on lexically clean paths over names {a,b,c} (state-aware templates: existing / child of existing dir, file, symlink / missing parent / root / relative), executed on MemFS and on Linux (OsFS in a chroot on tmpfs, acting identity set with setfsuid/setfsgid/setgroups on the calling thread); per call: outcome/errno/returned data and the digest of the full tree (names, types, permission bits, owners, sizes, contents, link counts, link targets)", mode, nh, hl)
 	r := &rng{s: cfg.seed*104729 + 7}
